@@ -55,6 +55,7 @@ class UnitResult:
         self.verified_count = 0
         self.samples = []
         self.lost_hints = []
+        self.portfolio = None
 
 
 def obligations_of(ex):
@@ -178,17 +179,8 @@ def run_unit(unit_path, repo, verif, workdir, threads=8, twin=True, log=None):
     cmd = ['verus', gen, '--output-json', '--time', '--multiple-errors', '50', '--error-format=json',
            '--rlimit', str(rlimit), '--num-threads', str(threads)]
     res.cmd = ' '.join(cmd)
-    procs = []
-    procs.append(subprocess.Popen(cmd, stdout=subprocess.PIPE, stderr=subprocess.PIPE, text=True, start_new_session=True))
-    twin_info = None
     timeout = int(getattr(ex, 'timeout', None) or os.environ.get('VERIF_VERUS_TIMEOUT', '420'))
-    timed_out = False
-    try:
-        out, err = procs[0].communicate(timeout=timeout)
-    except subprocess.TimeoutExpired:
-        timed_out = True
-        kill_tree(procs[0])
-        out, err = procs[0].communicate()
+    out, err, timed_out, res.portfolio = run_portfolio(gen, text, cmd, timeout)
     if log:
         open(log, 'w').write(err)
     starts = [s[0] for s in spans]
@@ -199,8 +191,6 @@ def run_unit(unit_path, repo, verif, workdir, threads=8, twin=True, log=None):
         if not timed_out:
             res.status = 'undecided'
             res.reason = 'verus produced no JSON: ' + err[-400:]
-            for p in procs[1:]:
-                kill_tree(p)
             return res
     vr = js.get('verification-results', {})
     res.verified_count = vr.get('verified', 0)
@@ -338,6 +328,59 @@ def run_unit(unit_path, repo, verif, workdir, threads=8, twin=True, log=None):
                 res.reason = 'vacuity canary: ' + res.canary['why']
     res.wall = time.time() - t0
     return res
+
+
+def run_portfolio(gen, text, cmd, timeout, grace=None):
+    """Z3 is occasionally unstable on a *failing* query (it diverges instead of
+    answering, and the answer depends on symbol names).  Run the file; if it has
+    not finished after `grace` seconds start two more copies under different
+    crate names (identical text) and take whichever finishes first."""
+    grace = grace or int(os.environ.get('VERIF_VERUS_GRACE', '75'))
+    t0 = time.time()
+    procs = []
+
+    def start(path):
+        c = [cmd[0], path] + cmd[2:]
+        of = open(path + '.out', 'w')
+        ef = open(path + '.err', 'w')
+        p = subprocess.Popen(c, stdout=of, stderr=ef, text=True, start_new_session=True)
+        procs.append((p, path, of, ef))
+
+    start(gen)
+    extra_started = False
+    winner = None
+    while True:
+        for (p, path, of, ef) in procs:
+            if p.poll() is not None:
+                winner = (p, path, of, ef)
+                break
+        if winner:
+            break
+        el = time.time() - t0
+        if el > timeout:
+            break
+        if el > grace and not extra_started:
+            extra_started = True
+            for suf in ('_p1', '_p2'):
+                path = gen[:-3] + suf + '.rs'
+                open(path, 'w').write(text)
+                start(path)
+        time.sleep(0.2)
+    for (p, path, of, ef) in procs:
+        if winner is None or p is not winner[0]:
+            kill_tree(p)
+            try:
+                p.wait(timeout=5)
+            except Exception:
+                pass
+        of.close()
+        ef.close()
+    if winner is None:
+        # keep partial stderr of the first run
+        return '', open(gen + '.err').read(), True, {'variants': len(procs), 'winner': None}
+    out = open(winner[1] + '.out').read()
+    err = open(winner[1] + '.err').read()
+    return out, err, False, {'variants': len(procs), 'winner': os.path.basename(winner[1]), 'wall_s': round(time.time() - t0, 1)}
 
 
 def kill_tree(p):
